@@ -260,7 +260,11 @@ def gen_scripts(rng, tier):
         if i % 3 == 2:
             out.append(oplists.gen_script_mt(rng, n_ops=rng.randrange(8, 24)))
         else:
-            out.append(oplists.gen_script(rng, late_add=(i % 6 == 0), n_ops=rng.randrange(6, 24), fault=0.0))
+            out.append(oplists.gen_script(rng, late_add=(i % 6 == 0), n_ops=rng.randrange(6, 24), fault=0.0,
+                                          p_register=0.3 if i % 2 else 0.0, p_exn=0.5 if i % 2 else 0.3))
+            for o in out[-1]["ops"]:
+                if o[0] == "register" and o[2][0] == "raise":
+                    o[2] = ["fields", []]        # (raising extractors add traceback messages of their own: C03/C07 cover them)
     return out
 
 
@@ -269,7 +273,9 @@ def _dump_script(node):
     if isinstance(node, WrittenAction):
         s = node.start_message
         h = None if s is None else s.contents.get("f19")
-        return {"k": "A", "h": h, "status": node.status, "children": [_dump_script(c) for c in node.children]}
+        e = node.end_message
+        endf = sorted(k for k in (e.contents if e is not None else {}) if k[:1] == "f" and k[1:].isdigit() and 40 <= int(k[1:]) < 46)
+        return {"k": "A", "h": h, "status": node.status, "endf": endf, "children": [_dump_script(c) for c in node.children]}
     c = dict(node.contents)
     return {"k": "M", "type": c.get("message_type"), "fields": _user_fields(c) if c.get("message_type") != "eliot:traceback" else {}}
 
@@ -323,16 +329,23 @@ def expected_script_forest(case):
     def attach(n, parent):
         (nodes[parent]["children"] if parent is not None else roots).append(n)
 
+    reg = []
+
     def end(h, exn):
         if h in nodes and h not in finished:
             finished.add(h)
             nodes[h]["status"] = "failed" if exn is not None else "succeeded"
+            if exn is not None:
+                # the fields of the extractor registered (by then) for the nearest class of the exception
+                ext = oracles.expected_extractor({"classes": case["classes"], "registry": reg}, exn["cls"])
+                if ext is not None and ext[0] == "fields":
+                    nodes[h]["endf"] = sorted(progs.key_name(k) for k, _ in ext[1] if k >= 20)
     for c, o in oplists.model_ops(case):
         st = stacks.setdefault(c, [])
         cur = st[-1] if st else None
         k = o[0]
         if k == "start":
-            n = {"k": "A", "h": o[1], "status": "started", "children": []}
+            n = {"k": "A", "h": o[1], "status": "started", "endf": [], "children": []}
             nodes[o[1]] = n
             attach(n, None if o[2] else cur)
         elif k in ("enter", "ctxenter", "runenter"):
@@ -354,6 +367,10 @@ def expected_script_forest(case):
             attach({"k": "M", "type": progs.type_name(o[2]), "fields": {progs.key_name(a): progs.py_value(v) for a, v in o[3]}}, o[1])
         elif k == "tb":
             attach({"k": "M", "type": "eliot:traceback", "fields": {}}, cur)
+        elif k == "register":
+            reg.append([o[1], o[2]])
+            if o[2][0] == "raise":
+                pass
     return roots
 
 
@@ -368,6 +385,8 @@ def _same_script_tree(a, b, path):
         return "%s: parsed action #%r where the script started action #%r" % (path, a["h"], b["h"])
     if a["status"] != b["status"]:
         return "%s: action #%r parsed with status %r, the script ended it as %r" % (path, a["h"], a["status"], b["status"])
+    if a.get("endf", []) != b.get("endf", []):
+        return "%s: action #%r ended with extractor fields %r, the extractor registered by then gives %r" % (path, a["h"], a.get("endf"), b.get("endf"))
     if len(a["children"]) != len(b["children"]):
         return "%s: action #%r has %d children in the parsed tree, %d were logged inside it" % (path, a["h"], len(a["children"]), len(b["children"]))
     for i, (x, y) in enumerate(zip(a["children"], b["children"])):
@@ -416,3 +435,21 @@ FAMILIES = [
            describe=progs.describe, shrink=progs.shrink, shard=30, coq_shard=40, case_timeout=30),
 ]
 
+
+
+# fixed feature programs (lib/progs.py CORPUS_FEATURES) run first under every seed: here with the file destination
+def _c01_corpus():
+    out = []
+    for k, c in enumerate(progs.CORPUS_FEATURES):
+        if any(x[1][0] != "fields" for x in c["registry"]) or "finish_again" in json.dumps(c["prog"]):
+            continue        # (explicit finish() inside the block is outside this family's expectation record; C03 has it)
+        c = json.loads(json.dumps(c))
+        c["pre"] = [["add", [c["pre"][0][1][0], [9, ["file"], {"id": 0, "cls": 15, "text": 1, "sr": False}]]]]
+        c["shuffle_seed"] = 1000 + k
+        out.append(c)
+    return out
+
+
+for _f in FAMILIES:
+    if _f.name == "roundtrip":
+        _f.corpus = list(_f.corpus or []) + _c01_corpus()
